@@ -12,7 +12,13 @@ Normalisations (meaning-preserving, done here): docstrings / annotations / `pass
 numbered in order of first binding (renaming locals or parameters does not change the output); `s.add(x)` is
 `s = s | {x}`; `x, = e` is a one-element unpack; `ast.Index(value=e)` is e; ast.fix_missing_locations / ast.copy_location
 are the identity on the tree; a module-level tuple/list/set/frozenset of str on the right of `in` is evaluated from the
-live module and emitted sorted; statements following a `try ... except: return` go into its `else`.
+live module and emitted sorted; statements following a `try ... except: return` go into its `else`; `a > b` is `b < a`;
+`next(iter(s))` is `s.pop()` without the mutation (both only have a meaning on a one-element set); list(e) / tuple(e).
+A call of a function of the same module / a method of the same class (`helper(..)`, `self.helper(..)`, positional
+arguments only, no decorators, not recursive) whose body is itself translatable is INLINED: fresh numbers for its
+parameters and locals, `p_i = <argument>` emitted before, then `SCall tmp <body>` and the call expression becomes `tmp`.
+The statements are hoisted in front of the statement that contains the call; that is only done where it cannot change
+the order or the number of evaluations (not below and/or/conditional expressions/generators: fail-closed there).
 """
 import ast
 import inspect
@@ -61,9 +67,17 @@ CONSTS = {}          # module-level collections of str referenced by the transla
 class Fn:
     """translation of one function body"""
 
-    def __init__(self, fn, module, n_params, has_self=False):
+    def __init__(self, fn, module, n_params, has_self=False, tree=None, cls=None):
         self.fn = fn
         self.module = module
+        self.tree = tree          # the parsed module, for helpers
+        self.klass = cls          # the class the method lives in
+        self.pending = []         # statements hoisted in front of the statement being translated
+        self.no_hoist = 0
+        self.inlining = []        # helpers being inlined (no recursion)
+        self.helper_scopes = []   # name -> number, innermost last
+        self.counter = 0
+        self.all_vars = []
         a = fn.args
         names = [x.arg for x in a.args]
         if has_self:
@@ -78,15 +92,30 @@ class Fn:
         self.vars = {}
         self.consts = []
 
+    def fresh(self, label):
+        n = self.counter
+        self.counter += 1
+        self.all_vars.append('%s=%d' % (label, n))
+        return n
+
     def var(self, name):
+        if self.helper_scopes:
+            sc = self.helper_scopes[-1]
+            if name not in sc:
+                sc[name] = self.fresh('%s.%s' % (self.inlining[-1], name))
+            return sc[name]
         if name in self.params:
             bad('assignment to parameter %s' % name)
         if name not in self.vars:
-            self.vars[name] = len(self.vars)
+            self.vars[name] = self.fresh(name)
         return self.vars[name]
 
     # ------------------------------------------------------------------ expressions
     def name(self, n, node):
+        if self.helper_scopes:
+            if n in self.helper_scopes[-1]:
+                return '(EVar %d)' % self.helper_scopes[-1][n]
+            bad('unknown name %s in helper' % n, node)
         if n in self.vars:
             return '(EVar %d)' % self.vars[n]
         if n in self.params:
@@ -136,9 +165,16 @@ class Fn:
             return '(ENot %s)' % self.expr(e.operand)
         if isinstance(e, ast.BoolOp):
             op = 'EAnd' if isinstance(e.op, ast.And) else 'EOr'
-            out = self.expr(e.values[-1])
-            for v in reversed(e.values[:-1]):
-                out = '(%s %s %s)' % (op, self.expr(v), out)
+            first = self.expr(e.values[0])
+            self.no_hoist += 1          # the other operands are evaluated conditionally
+            try:
+                rest = [self.expr(v) for v in e.values[1:]]
+            finally:
+                self.no_hoist -= 1
+            vals = [first] + rest
+            out = vals[-1]
+            for v in reversed(vals[:-1]):
+                out = '(%s %s %s)' % (op, v, out)
             return out
         if isinstance(e, ast.Compare):
             if len(e.ops) != 1:
@@ -153,6 +189,11 @@ class Fn:
                 return '(EEq %s %s)' % (self.expr(l), self.expr(r))
             if isinstance(op, ast.NotEq):
                 return '(ENe %s %s)' % (self.expr(l), self.expr(r))
+            if isinstance(op, (ast.Lt, ast.LtE, ast.Gt, ast.GtE)):
+                a, b = self.expr(l), self.expr(r)
+                if isinstance(op, (ast.Gt, ast.GtE)):
+                    a, b = b, a          # pure operands: the order of evaluation is not observable
+                return '(%s %s %s)' % ('ELt' if isinstance(op, (ast.Lt, ast.Gt)) else 'ELe', a, b)
             if isinstance(op, (ast.In, ast.NotIn)):
                 if isinstance(r, (ast.List, ast.Tuple)):
                     t = '(EInList %s [%s])' % (self.expr(l), '; '.join(self.expr(x) for x in r.elts))
@@ -167,7 +208,13 @@ class Fn:
                 return t if isinstance(op, ast.In) else '(ENot %s)' % t
             bad('comparison operator', e)
         if isinstance(e, ast.IfExp):
-            bad('conditional expression', e)
+            c = self.expr(e.test)
+            self.no_hoist += 1
+            try:
+                a, b = self.expr(e.body), self.expr(e.orelse)
+            finally:
+                self.no_hoist -= 1
+            return '(EIfExp %s %s %s)' % (c, a, b)
         if isinstance(e, ast.Subscript):
             if isinstance(e.slice, ast.Constant) and isinstance(e.slice.value, int):
                 return '(EIndex %s (%d)%%Z)' % (self.expr(e.value), e.slice.value)
@@ -209,6 +256,11 @@ class Fn:
             return '(ELen %s)' % self.expr(e.args[0])
         if d == 'set' and not e.args and not e.keywords:
             return 'ESetEmpty'
+        if d == 'next' and len(e.args) == 1 and not e.keywords and isinstance(e.args[0], ast.Call) \
+                and dotted(e.args[0].func) == 'iter' and len(e.args[0].args) == 1 and not e.args[0].keywords:
+            return '(ESetPop %s)' % self.expr(e.args[0].args[0])
+        if d in ('list', 'tuple') and len(e.args) == 1 and not e.keywords:
+            return '(EToList %s)' % self.expr(e.args[0])
         if d == '_annotation_for_value' and len(e.args) == 1 and not e.keywords:
             return '(ECallValue %s)' % self.expr(e.args[0])
         if d == '_annotation_for_elements' and len(e.args) == 1 and not e.keywords:
@@ -219,7 +271,12 @@ class Fn:
                 bad('generator expression', e)
             it = self.expr(g.generators[0].iter)
             x = self.var(g.generators[0].target.id)
-            return '(EAny %d %s %s)' % (x, it, self.expr(g.elt))
+            self.no_hoist += 1
+            try:
+                cond = self.expr(g.elt)
+            finally:
+                self.no_hoist -= 1
+            return '(EAny %d %s %s)' % (x, it, cond)
         if d == 'ast.Name':
             k = self.kw(e, ['id'])
             return '(EMkName %s)' % self.expr(k['id'])
@@ -255,7 +312,73 @@ class Fn:
                 if dotted(recv) == 'self.builder.current.contents':
                     return '(EContentsGet %s)' % self.expr(e.args[0])
                 return '(EDictGet %s %s)' % (self.expr(recv), self.expr(e.args[0]))
+        h = self.helper(e)
+        if h is not None:
+            return h
         bad('call', e)
+
+    def helper(self, e):
+        """a call of a same-module function / same-class method: inlined, see the module docstring"""
+        f = e.func
+        if self.tree is None or e.keywords or any(isinstance(a, ast.Starred) for a in e.args):
+            return None
+        if isinstance(f, ast.Name):
+            cands = [n for n in self.tree.body if isinstance(n, ast.FunctionDef) and n.name == f.id]
+            has_self = False
+        elif isinstance(f, ast.Attribute) and isinstance(f.value, ast.Name) and f.value.id == 'self' and self.klass is not None:
+            cs = [n for n in self.tree.body if isinstance(n, ast.ClassDef) and n.name == self.klass]
+            cands = [n for c in cs for n in c.body if isinstance(n, ast.FunctionDef) and n.name == f.attr]
+            has_self = True
+        else:
+            return None
+        if len(cands) != 1:
+            return None
+        fn = cands[0]
+        if self.no_hoist:
+            bad('call of helper %s in a conditionally evaluated position' % fn.name, e)
+        if fn.name in self.inlining or fn.name == self.fn.name:
+            bad('recursive helper %s' % fn.name, e)
+        a = fn.args
+        names = [x.arg for x in a.args]
+        if has_self:
+            if not names or names[0] != 'self':
+                bad('first parameter of helper %s is not self' % fn.name, fn)
+            names = names[1:]
+        if a.vararg or a.kwarg or a.kwonlyargs or a.posonlyargs or a.defaults or len(names) != len(e.args) or fn.decorator_list:
+            bad('parameters of helper %s' % fn.name, fn)
+        # the arguments, in the caller's scope
+        argv = [self.expr(x) for x in e.args]
+        self.inlining.append(fn.name)
+        scope = {}
+        self.helper_scopes.append(scope)
+        saved, self.pending = self.pending, []
+        try:
+            pre = []
+            for n, v in zip(names, argv):
+                scope[n] = self.fresh('%s.%s' % (fn.name, n))
+                pre.append('(SAssign %d %s)' % (scope[n], v))
+            hbody = strip_doc(fn.body)
+            self.check_pop(hbody)
+            self.check_params_not_assigned(fn, names)
+            body = self.seq(hbody)
+        finally:
+            self.helper_scopes.pop()
+            self.inlining.pop()
+            self.pending = saved
+        if self.helper_scopes:
+            tmp = self.fresh('%s.<result of %s>' % (self.inlining[-1], fn.name))
+        else:
+            tmp = self.fresh('<result of %s>' % fn.name)
+        self.pending.extend(pre)
+        self.pending.append('(SCall %d %s)' % (tmp, body))
+        return '(EVar %d)' % tmp
+
+    def check_params_not_assigned(self, fn, names):
+        for n in ast.walk(fn):
+            if isinstance(n, ast.Name) and isinstance(n.ctx, (ast.Store, ast.Del)) and n.id in names:
+                bad('helper %s assigns its parameter %s' % (fn.name, n.id), n)
+            if isinstance(n, (ast.FunctionDef, ast.Lambda, ast.ClassDef, ast.Global, ast.Nonlocal)) and n is not fn:
+                bad('nested scope in helper %s' % fn.name, n)
 
     # ------------------------------------------------------------------ statements
     def seq(self, stmts):
@@ -267,7 +390,7 @@ class Fn:
             if isinstance(s, ast.Try):
                 out.append(self.try_stmt(s, stmts[i + 1:]))
                 break
-            out.append(self.stmt(s))
+            out.extend(self.hoisted(s))
             i += 1
         if not out:
             return 'SSkip'
@@ -292,7 +415,10 @@ class Fn:
             bad('try body', s)
         if not (isinstance(val, ast.Call) and dotted(val.func) == 'ast.literal_eval' and len(val.args) == 1 and not val.keywords):
             bad('try body is not x = ast.literal_eval(e)', s)
+        npend = len(self.pending)
         arg = self.expr(val.args[0])
+        if len(self.pending) != npend:
+            bad('helper call inside the try body', s)
         x = self.var(tgt)
         orelse = list(s.orelse)
         if rest:
@@ -300,6 +426,15 @@ class Fn:
                 bad('statements after a try whose handler does not return', s)
             orelse = orelse + list(rest)
         return '(STryLit %d %s %s %s)' % (x, arg, self.seq(h.body), self.seq(orelse))
+
+    def hoisted(self, s):
+        """the translation of s, preceded by the inlined helper calls its own expressions contain"""
+        saved, self.pending = self.pending, []
+        try:
+            t = self.stmt(s)
+            return self.pending + [t]
+        finally:
+            self.pending = saved
 
     def stmt(self, s):
         if isinstance(s, ast.Return):
@@ -323,7 +458,8 @@ class Fn:
                 return '(SSetKind %s %s)' % (self.expr(t.value), self.expr(s.value))
             bad('assignment target', s)
         if isinstance(s, ast.If):
-            return '(SIf %s %s %s)' % (self.expr(s.test), self.seq(s.body), self.seq(s.orelse))
+            test = self.expr(s.test)
+            return '(SIf %s %s %s)' % (test, self.seq(s.body), self.seq(s.orelse))
         if isinstance(s, ast.For):
             if s.orelse or not isinstance(s.target, ast.Name):
                 bad('for statement', s)
@@ -384,21 +520,23 @@ def generate() -> dict:
     t_utils = ast.parse(Path(inspect.getsourcefile(astutils)).read_text())
     t_model = ast.parse(Path(inspect.getsourcefile(model)).read_text())
     t_build = ast.parse(Path(inspect.getsourcefile(astbuilder)).read_text())
-    items = [('infer_type', find_fn(t_utils, 'infer_type'), astutils, 1, False, 'astutils.infer_type'),
-             ('annotation_for_value', find_fn(t_utils, '_annotation_for_value'), astutils, 1, False, 'astutils._annotation_for_value'),
-             ('annotation_for_elements', find_fn(t_utils, '_annotation_for_elements'), astutils, 1, False, 'astutils._annotation_for_elements'),
-             ('is_exception', find_fn(t_model, 'is_exception'), model, 1, False, 'model.is_exception'),
+    items = [('infer_type', find_fn(t_utils, 'infer_type'), astutils, 1, False, 'astutils.infer_type', t_utils, None),
+             ('annotation_for_value', find_fn(t_utils, '_annotation_for_value'), astutils, 1, False, 'astutils._annotation_for_value',
+              t_utils, None),
+             ('annotation_for_elements', find_fn(t_utils, '_annotation_for_elements'), astutils, 1, False,
+              'astutils._annotation_for_elements', t_utils, None),
+             ('is_exception', find_fn(t_model, 'is_exception'), model, 1, False, 'model.is_exception', t_model, None),
              ('oldschool', find_fn(t_build, '_handleOldSchoolMethodDecoration', 'ModuleVistor'), astbuilder, 2, True,
-              'astbuilder.ModuleVistor._handleOldSchoolMethodDecoration')]
+              'astbuilder.ModuleVistor._handleOldSchoolMethodDecoration', t_build, 'ModuleVistor')]
     CONSTS.clear()
     lines = []
-    for key, fn, module, npar, has_self, title in items:
-        f = Fn(fn, module, npar, has_self)
+    for key, fn, module, npar, has_self, title, tree, cls in items:
+        f = Fn(fn, module, npar, has_self, tree, cls)
         text = f.translate()
         if key == 'is_exception':
             exc_consts = list(f.consts)
         lines.append('(* %s ; parameters: %s ; locals: %s *)' % (
-            title, ', '.join('%s=%d' % kv for kv in f.params.items()), ', '.join('%s=%d' % kv for kv in f.vars.items()) or 'none'))
+            title, ', '.join('%s=%d' % kv for kv in f.params.items()), ', '.join(f.all_vars) or 'none'))
         lines.append('Definition code_%s : istmt :=' % key)
         lines.append(textwrap.fill(text, 110, initial_indent='  ', subsequent_indent='  ', break_long_words=False) + '.')
         lines.append('')
